@@ -121,5 +121,13 @@ Render(e, maxp) ==
          LET RECURSIVE Ps(_)
              Ps(i) == IF i >= N THEN <<>> ELSE (IF i > 1 THEN <<Bare(<<",">>)>> ELSE <<>>) \o <<S(i)>> \o Ps(i + 1)
          IN Compose(<<Bare(<<"FILTER@" \o IxStr(e.ix, 1), "[">>)>> \o Ps(1) \o <<Bare(<<"]", "(">>), S(N), Bare(<<")">>)>>)
+    [] e.id = "FUNCDEF" ->      \* [a in S, b in T] body ; ch = <<ARGS, body>>, ARGS.ch = <<ARG(name, domain), ...>>
+         LET args == e.ch[1]
+             RECURSIVE As(_)
+             As(i) == IF i > Len(args.ch) THEN <<>>
+                      ELSE (IF i > 1 THEN <<Bare(<<",">>)>> ELSE <<>>)
+                           \o <<Part(Compose(<<Part(Leaf("$" \o args.ch[i].ch[1].s)), Bare(<<"IN">>), Part(RenderSet(args.ch[i].ch[2], maxp))>>))>> \o As(i + 1)
+         IN Compose(<<Bare(<<"[">>), Part(Compose(As(1))), Bare(<<"]">>), Part(Render(e.ch[2], maxp))>>)
+    [] e.id = "BAD" -> Compose(<<Part(Leaf("$" \o e.ch[1].s)), Bare(<<"UNION">>)>>)     \* a definition that does not parse (mentions one name)
     [] OTHER -> Leaf("??" \o e.id)
 =============================================================================
